@@ -74,7 +74,7 @@ def regenerate():
     gen = os.path.join(THEORIES, "Generated")
     os.makedirs(gen, exist_ok=True)
     jobs = [("Decisions.v", [os.path.join(BIN, "gen_decisions"), "-src", os.path.join(REPO, "server/server.go")])]
-    for extra in ("gen_locktable", "gen_codectable", "gen_fluent", "gen_chk"):
+    for extra in ("gen_locktable", "gen_codectable", "gen_fluent", "gen_chk", "gen_chantable"):
         if os.path.exists(os.path.join(BIN, extra)) and os.path.exists(os.path.join(VERIF, "tools", extra, "target")):
             name = open(os.path.join(VERIF, "tools", extra, "target")).read().strip()
             jobs.append((name, [os.path.join(BIN, extra)]))
